@@ -10,7 +10,7 @@ variable {α : Type} [Add α] [Sub α] [Mul α] [Div α] [Neg α] [NatCast α]
 /-! ### leaves -/
 
 /-- `Echo` -/
-def echoV : View α where
+@[reducible] def echoV : View α where
   σ := Option α
   init := none
   upd _ x := do assertFinite x; pure (some x)
@@ -18,10 +18,10 @@ def echoV : View α where
   size _ := 0
 
 /-- a `Core` seen as a view over `Echo` -/
-def overEcho (B : Core α) : View α := wrap echoV B
+@[reducible] def overEcho (B : Core α) : View α := wrap echoV B
 
 /-- `Constant` -/
-def constV (c : α) : View α where
+@[reducible] def constV (c : α) : View α where
   σ := Unit
   init := ()
   upd _ _ := pure ()
